@@ -20,8 +20,9 @@ import (
 func init() { register("c02", runC02) }
 
 type c02Op struct {
-	K string `json:"k"` // hdr (N next headers) | blk (next block) | flush | flushgc
-	N int    `json:"n,omitempty"`
+	K  string `json:"k"` // hdr (N next headers) | blk (next block) | flush | flushgc
+	N  int    `json:"n,omitempty"`
+	In string `json:"in,omitempty"` // blk: flushes INSIDE the block addition (c02inblock.go): P at storeBlock's lock, W in its back-pressure wait, M after the merge
 }
 
 // c02Input is the replayable description of one history with its flush schedule.
@@ -54,6 +55,17 @@ func c02Drive(b *c02Built, in c02Input) (rec *c02Rec, base *c02Store, done []c02
 		return rec, base, nil, "victim open: " + fail
 	}
 	rec.node = func() (uint32, uint32) { return bc.BlockHeight(), bc.HeaderHeight() }
+	var ib *c02InBlock
+	for _, op := range in.Ops {
+		if op.In != "" && ib == nil {
+			ib = c02NewInBlock(bc)
+			ib.nb = func() int { rec.mu.Lock(); defer rec.mu.Unlock(); return len(rec.batches) }
+		}
+	}
+	c02LastHits, c02LastIB = nil, ib
+	if ib != nil {
+		c02LastHits = ib.Hits
+	}
 	go bc.Run()
 	top := uint32(len(b.Blocks) - 1)
 	fail = c02Try(func() {
@@ -73,6 +85,24 @@ func c02Drive(b *c02Built, in c02Input) (rec *c02Rec, base *c02Store, done []c02
 				}
 				done = append(done, c02Op{K: "hdr", N: len(hs)})
 			case "blk":
+				if op.In != "" {
+					i := bc.BlockHeight() + 1
+					if i > top {
+						continue
+					}
+					var ops []c02Op
+					var err error
+					if op.In == "S" {
+						ops, err = ib.addStepping(b.Blocks[i], done)
+					} else {
+						ops, err = ib.add(b.Blocks[i], op.In)
+					}
+					done = append(done, ops...)
+					if err != nil {
+						panic(fmt.Sprintf("AddBlock %d (flushes %s): %v", i, op.In, err))
+					}
+					continue
+				}
 				cnt := 0
 				for j := 0; j < max(1, op.N); j++ {
 					i := bc.BlockHeight() + 1
@@ -105,6 +135,10 @@ func c02Drive(b *c02Built, in c02Input) (rec *c02Rec, base *c02Store, done []c02
 	done = append(done, c02Op{K: "flush"})
 	return rec, base, done, fail
 }
+
+// c02LastHits: the in-block flushes of the last c02Drive that wrote something, per placement
+var c02LastHits map[string]int
+var c02LastIB *c02InBlock
 
 type c02Recovered struct {
 	K      int    `json:"k"`
@@ -530,7 +564,9 @@ func c02CoqRecov(rs []c02Recovered) string {
 // ---------------------------------------------------------------------------------------------
 // scenario: ordinary persistence (+ GC)
 
-func c02RunPersist(co *caseOut, in c02Input) error {
+func c02RunPersist(co *caseOut, in c02Input) error { return c02RunPersistKind(co, in, "persist") }
+
+func c02RunPersistKind(co *caseOut, in c02Input, kind string) error {
 	c02srih = in.Cfg.SRIH
 	b, err := c02Build(c02History{Cfg: in.Cfg, Blocks: in.Blocks})
 	if err != nil {
@@ -538,13 +574,13 @@ func c02RunPersist(co *caseOut, in c02Input) error {
 	}
 	defer b.close()
 	ix := c02MakeIndex(b)
-	kind := "persist"
 	viol := func(class, note string, k int) {
 		vin := in
 		vin.At = &k
 		co.violation(kind, fmt.Sprintf("%s/%s: after batch %d: %s", kind, class, k, note), vin, map[string]any{"k": k, "class": class})
 	}
 	rec, base, done, fail := c02Drive(b, in)
+	hits := c02LastHits
 	if base != nil {
 		defer base.destroy()
 	}
@@ -553,6 +589,14 @@ func c02RunPersist(co *caseOut, in c02Input) error {
 		return nil
 	}
 	bs := rec.batches
+	if kind == "inblock" {
+		// every batch carries nothing or everything of a block
+		for i, x := range bs {
+			if why := c02Aligned(ix, x); why != "" {
+				viol("torn-batch", why+" ("+c02Summary(x)+")", i+1)
+			}
+		}
+	}
 	// the base store must be exactly the replay of the recorded batches (nothing reaches the database otherwise)
 	{
 		st, _ := c02NewStore("mem")
@@ -605,6 +649,52 @@ func c02RunPersist(co *caseOut, in c02Input) error {
 	}
 	tag := fmt.Sprintf("%s%s/batches%d", in.Cfg.Backend, map[bool]string{true: "+gc", false: ""}[in.Cfg.GC], min(len(bs)/4*4, 16))
 	term := fmt.Sprintf("CPersist %s %s %s %s %s", coqBool(in.Cfg.GC), c02CoqNtx(ix), c02CoqOps(done), c02CoqBatches(ix, bs, viol), c02CoqRecov(recov))
+	if kind == "inblock" && c02LastIB != nil && len(c02LastIB.Snaps) > 0 {
+		// virtual flushes: the content of the shared write cache before every single write to it
+		var items []string
+		steps := map[string]int{}
+		for _, sn := range c02LastIB.Snaps {
+			vb := c02Batch{Kind: "put", Mem: sn.Mem, Stor: sn.Stor, Height: sn.Height}
+			steps[sn.At[:strings.IndexByte(sn.At, '/')]]++
+			if why := c02Aligned(ix, vb); why != "" {
+				viol("torn-cache", fmt.Sprintf("at %s a flush would write a batch that is not block-aligned: %s (%s)", sn.At, why, c02Summary(vb)), sn.NB)
+			}
+			ws, _ := c02Abstract(ix, vb)
+			items = append(items, fmt.Sprintf("(%s, %s)", c02CoqOps(sn.Ops), c02CoqWrites(ws)))
+			if len(sn.Mem)+len(sn.Stor) == 0 {
+				continue
+			}
+			st, err := c02NewStore(in.Cfg.Backend)
+			if err != nil {
+				return err
+			}
+			c02Apply(st.st, bs[:sn.NB])
+			c02Apply(st.st, []c02Batch{vb})
+			res := c02Recovered{K: sn.NB, Res: "ok"}
+			vv := func(class, note string, k int) { viol("virtual-flush-"+class, "a flush at "+sn.At+": "+note, k) }
+			bc, _, fail := c02Open(c02NoClose{st.st}, in.Cfg, nil)
+			if fail != "" {
+				vv("reopen-fails", c02Short(fail), sn.NB)
+			} else {
+				go bc.Run()
+				c02CheckNode(b, bc, st.st, in.Cfg, sn.NB, sn.Height, -1, &res, vv)
+				bc.Close()
+			}
+			st.destroy()
+		}
+		maxSteps := 0
+		for _, n := range steps {
+			maxSteps = max(maxSteps, n)
+		}
+		co.add(kind, fmt.Sprintf("%s/cache-steps/blocks%d/max%d", in.Cfg.Backend, min(len(steps), 4), maxSteps), len(steps) > 0, in,
+			map[string]any{"snapshots": len(c02LastIB.Snaps), "per_block": steps},
+			fmt.Sprintf("CCache %s %s", c02CoqNtx(ix), coqList(items)))
+	}
+	if kind == "inblock" {
+		tag = fmt.Sprintf("%s/P%d-W%d-M%d", in.Cfg.Backend, min(hits["P"], 3), min(hits["W"], 3), min(hits["M"], 3))
+		co.add(kind, tag, hits["P"] > 0 && hits["W"] > 0 && hits["M"] > 0, in, map[string]any{"ops": done, "batches": len(bs), "in_block_flushes": hits, "recovered": recov}, term)
+		return nil
+	}
 	co.add(kind, tag, len(bs) >= 3 && (multi || hdronly), in, map[string]any{"ops": done, "batches": len(bs), "recovered": recov}, term)
 	return nil
 }
@@ -850,6 +940,19 @@ func c02RunJump(co *caseOut, in c02Input) error {
 		gate = c02NewGate(nil)
 		rec.gate = gate
 	}
+	var snaps []c02CacheSnap
+	if in.Cfg.Step {
+		L := bc.VerifWriteCache()
+		src.wrapBlock = func(i uint32, add func() error) error {
+			return c02StepCache(bc, fmt.Sprintf("synchronised block %d", i), add, func(k int, at string) {
+				mem, stor := L.VerifPendingChanges()
+				rec.mu.Lock()
+				nbat := len(rec.batches)
+				rec.mu.Unlock()
+				snaps = append(snaps, c02CacheSnap{Mem: mem, Stor: stor, NB: nbat, Height: bc.BlockHeight(), At: fmt.Sprintf("b%d/%s", i, at)})
+			})
+		}
+	}
 	var derr error
 	m := c02Try(func() {
 		derr = src.drive(bc, nb, func(step int) error {
@@ -890,18 +993,18 @@ func c02RunJump(co *caseOut, in c02Input) error {
 	for _, x := range bs {
 		stages = append(stages, c02StageOf(x))
 	}
-	var recov []c02Recovered
-	for k := 0; k <= len(bs); k++ {
+	src.wrapBlock = nil
+	checkAt := func(k int, batches []c02Batch, vv c02Viol) (c02Recovered, error) {
 		res := c02Recovered{K: k, Res: "ok"}
 		st, err := c02NewStore(cfg.Backend)
 		if err != nil {
-			return err
+			return res, err
 		}
-		c02Apply(st.st, bs[:k])
+		c02Apply(st.st, batches)
 		bc2, _, fail := c02Open(c02NoClose{st.st}, cfg, trust)
 		if fail != "" {
 			res.Res, res.Err = "fail", c02Short(fail)
-			viol("reopen-fails", c02Short(fail), k)
+			vv("reopen-fails", c02Short(fail), k)
 		} else {
 			go bc2.Run()
 			h0 := bc2.BlockHeight()
@@ -910,18 +1013,42 @@ func c02RunJump(co *caseOut, in c02Input) error {
 			switch {
 			case m != "" || derr != nil:
 				res.Res = "broken"
-				viol("resumed-sync-fails", c02Short(fmt.Sprint(m, derr)), k)
+				vv("resumed-sync-fails", c02Short(fmt.Sprint(m, derr)), k)
 			case bc2.BlockHeight() < src.p:
 				// the module declared itself done although the chain is below the sync point
 				res.Res, res.Height = "stuck", bc2.BlockHeight()
-				viol("stuck-below-sync-point", fmt.Sprintf("reopened at %d; the synchronisation module is inactive but the node is at height %d, below the state sync point %d, and cannot process blocks", h0, bc2.BlockHeight(), src.p), k)
+				vv("stuck-below-sync-point", fmt.Sprintf("reopened at %d; the synchronisation module is inactive but the node is at height %d, below the state sync point %d, and cannot process blocks", h0, bc2.BlockHeight(), src.p), k)
 			default:
-				c02CheckNode(b, bc2, st.st, cfg, k, src.top, -1, &res, viol)
+				c02CheckNode(b, bc2, st.st, cfg, k, src.top, -1, &res, vv)
 			}
 			bc2.Close()
 		}
 		st.destroy()
+		return res, nil
+	}
+	var recov []c02Recovered
+	for k := 0; k <= len(bs); k++ {
+		res, err := checkAt(k, bs[:k], viol)
+		if err != nil {
+			return err
+		}
 		recov = append(recov, res)
+	}
+	// virtual flushes: the content of the shared write cache before every single write of the stepped additions
+	vbad := 0
+	for _, sn := range snaps {
+		if len(sn.Mem)+len(sn.Stor) == 0 {
+			continue
+		}
+		vb := c02Batch{Kind: "put", Mem: sn.Mem, Stor: sn.Stor, Height: sn.Height}
+		sn := sn
+		vv := func(class, note string, k int) {
+			vbad++
+			viol("virtual-flush-"+class, fmt.Sprintf("a flush at %s (%s): %s", sn.At, c02Summary(vb), note), k)
+		}
+		if _, err := checkAt(sn.NB, append(append([]c02Batch{}, bs[:sn.NB]...), vb), vv); err != nil {
+			return err
+		}
 	}
 	// only the jump's own batches are compared with the stage machine of the model
 	j0 := len(bs)
@@ -943,7 +1070,10 @@ func c02RunJump(co *caseOut, in c02Input) error {
 	}
 	term := fmt.Sprintf("CJump %s %d %d %d %s %s", coqBool(jor), src.p, src.top, c02MTB, c02CoqBatches(ix, bs[j0:j1], viol), c02CoqRecov(recov[j0:min(j1+1, len(recov))]))
 	tag := fmt.Sprintf("%s/batches%d", cfg.Backend, min(len(bs)/8*8, 40))
-	co.add(kind, tag, j1-j0 >= 4, in, map[string]any{"p": src.p, "top": src.top, "stages": stages, "recovered": recov}, term)
+	if in.Cfg.Step {
+		tag += fmt.Sprintf("/stepped%d", min(len(snaps)/10*10, 50))
+	}
+	co.add(kind, tag, j1-j0 >= 4, in, map[string]any{"p": src.p, "top": src.top, "stages": stages, "recovered": recov, "virtual_flushes": len(snaps), "virtual_flush_violations": vbad}, term)
 	return nil
 }
 
@@ -972,6 +1102,45 @@ func c02GenOps(r *rng, nblocks int, gc bool, hdrAhead int) []c02Op {
 		ops = append(ops, c02Op{K: "hdr", N: hdrAhead})
 	}
 	return ops
+}
+
+// c02GenInBlock: every block is added with a generated set of in-block flushes; between blocks sometimes nothing is
+// flushed (so that the back-pressure wait has something to wait for), sometimes headers run ahead
+func c02GenInBlock(r *rng, i int) c02Input {
+	backends := []string{"mem", "leveldb", "bolt"}
+	cfg := c02Cfg{SRIH: r.bool(), Backend: backends[i%3]}
+	nb := 7 + r.intn(4)
+	h := c02GenHistory(r, cfg, nb)
+	var ops []c02Op
+	for j := 0; j < nb; j++ {
+		if r.chance(20) {
+			ops = append(ops, c02Op{K: "hdr", N: 1 + r.intn(2)})
+		}
+		in := ""
+		for _, p := range []string{"P", "W", "M"} {
+			if r.chance(55) {
+				in += p
+			}
+		}
+		if j < 4 { // the first blocks cover every single placement
+			in = []string{"P", "W", "M", "S"}[j]
+		} else if r.chance(30) {
+			in = "S"
+		}
+		if in == "" {
+			in = "PWM"
+		}
+		if strings.Contains(in, "W") && !strings.Contains(in, "P") && j > 0 && r.chance(70) {
+			// leave the previous block in the write cache: plain block, no flush
+			ops = append(ops, c02Op{K: "blk"})
+			j++
+		}
+		ops = append(ops, c02Op{K: "blk", In: in})
+		if r.chance(25) {
+			ops = append(ops, c02Op{K: "flush"})
+		}
+	}
+	return c02Input{Cfg: cfg, Blocks: h.Blocks, Ops: ops}
 }
 
 func c02Gen(r *rng, i int) (string, c02Input) {
@@ -1026,13 +1195,15 @@ func c02RunCase(co *caseOut, kind string, in c02Input) error {
 		return c02RunStorageSync(co, in)
 	case "resetord":
 		return c02RunResetOrd(co, in)
+	case "inblock":
+		return c02RunPersistKind(co, in, "inblock")
 	}
 	return fmt.Errorf("unknown case kind %q", kind)
 }
 
 func runC02(args []string) error {
 	cf, fs := parseCommon("c02", args)
-	only := fs.String("only", "", "debugging: run only the fixed families of this kind (longgc|jump|storagesync|resetord|gen)")
+	only := fs.String("only", "", "debugging: run only the fixed families of this kind (longgc|jump|storagesync|resetord|inblock|gen)")
 	fs.Parse(args)
 	want := func(k string) bool { return *only == "" || *only == k }
 	core.VerifSetPersistInterval(time.Hour) // every flush is requested by the harness
@@ -1090,6 +1261,20 @@ func runC02(args []string) error {
 				return fmt.Errorf("racing synchronisation %d: %w", i, err)
 			}
 		}
+		// ... and with the shared write cache stepped: a virtual flush before every single write of every
+		// synchronised block, the state jump included (deterministic: the content of the cache is read under its lock)
+		steps := 1
+		if cf.tier == "thorough" {
+			steps = 4
+		}
+		for i := 0; i < steps; i++ {
+			_, in := c02Gen(r, 3)
+			in.Cfg.Step = true
+			in.Ops = nil
+			if err := c02RunCase(co, "jump", in); err != nil {
+				return fmt.Errorf("stepped synchronisation %d: %w", i, err)
+			}
+		}
 	}
 	// contract-storage-based synchronisation (NeoFS mode): ModeLatest and ModeGC light nodes, item batches cut at
 	// random sizes, extra flushes between deliveries; and the same with the racing flusher
@@ -1114,6 +1299,18 @@ func runC02(args []string) error {
 		for i := 0; i < n; i++ {
 			if err := c02RunCase(co, "resetord", c02GenResetOrd(r)); err != nil {
 				return fmt.Errorf("reset on a slow store %d: %w", i, err)
+			}
+		}
+	}
+	// a flush INSIDE a block addition: at storeBlock's lock, in its back-pressure wait, after the merge
+	if want("inblock") {
+		n := 2
+		if cf.tier == "thorough" {
+			n = 12
+		}
+		for i := 0; i < n; i++ {
+			if err := c02RunCase(co, "inblock", c02GenInBlock(r, i)); err != nil {
+				return fmt.Errorf("flush inside a block addition %d: %w", i, err)
 			}
 		}
 	}
